@@ -295,9 +295,12 @@ func Report(p *Program, units []*Unit, o CheckOpts, work string) int {
 		},
 		"assumptions": assume, "wall_s": round3(time.Since(o.Start).Seconds()), "violations": len(viol),
 	}
-	os.MkdirAll(filepath.Join(o.Verif, "evidence"), 0o755)
-	data, _ := json.MarshalIndent(ev, "", " ")
-	os.WriteFile(filepath.Join(o.Verif, "evidence", o.Prop+".json"), data, 0o644)
+	if o.Only == "" {
+		// partial runs (--only, used while developing contracts) never overwrite the evidence of a full run
+		os.MkdirAll(filepath.Join(o.Verif, "evidence"), 0o755)
+		data, _ := json.MarshalIndent(ev, "", " ")
+		os.WriteFile(filepath.Join(o.Verif, "evidence", o.Prop+".json"), data, 0o644)
+	}
 	fmt.Printf("%s: %d units, %d obligations, %d discharged, %d violations, %.1fs\n", o.Prop, len(units), nObl, nDis, len(viol), time.Since(o.Start).Seconds())
 	if len(viol) > 0 {
 		return 1
